@@ -11,7 +11,7 @@ body = body.split('\n].\nDefinition VERDICT')[0]
 cases = re.split(r';\n  (?=Txn\.mk )', body)
 term = cases[off].strip()
 dbg = head + '''
-Definition the_case : Txn.case := %s.
+Definition the_case : CASETYPE := %s.
 Definition summ (r : result) : nat * N :=
   match r with
   | RUuid u => (1%%nat, u) | RRows rs => (2%%nat, N.of_nat (length rs)) | RCount n => (3%%nat, N.of_nat n) | REmpty => (4%%nat, 0%%N)
